@@ -58,7 +58,19 @@ import (
 )
 
 // The diff/match/patch algorithm.
-var dmp = diffmatchpatch.New()
+var dmp = newDiffMatchPatch()
+
+// newDiffMatchPatch returns the diff object shared by all classifiers. By
+// default the library gives up refining a diff one second of wall-clock time
+// after it started and returns a coarser one, which makes confidences depend
+// on how busy the machine is and on how many calls run concurrently. Move the
+// deadline out of reach. (A timeout of 0 would also disable the library's
+// half-match speed-up.)
+func newDiffMatchPatch() *diffmatchpatch.DiffMatchPatch {
+	d := diffmatchpatch.New()
+	d.DiffTimeout = math.MaxInt64
+	return d
+}
 
 const (
 	// DefaultConfidenceThreshold is the minimum ratio threshold between
